@@ -63,6 +63,11 @@ mod c_eq;
 mod c_par;
 #[path = "../search/c_safe.rs"]
 mod c_safe;
+#[path = "../search/c_leak.rs"]
+mod c_leak;
+
+#[global_allocator]
+static GLOBAL: c_leak::Counting = c_leak::Counting;
 
 use {
     json::J,
@@ -288,7 +293,7 @@ fn search(prop: &str, seed: u64, ctx: &mut Ctx) -> Option<J> {
         "C10" => c_scc::search_c10(seed, ctx),
         "C11" => c_ops::search_c11(seed, ctx),
         "C12" => c_ops::search_c12(seed, ctx),
-        "C13" => c_safe::search_c13(seed, ctx),
+        "C13" => c_safe::search_c13(seed, ctx).or_else(|| c_leak::search_leak(seed, ctx)),
         "C14" => c_gen::search_c14(seed, ctx),
         "C15" => c_gen::search_c15(seed, ctx),
         "C16" => c_conv::search_c16(seed, ctx),
@@ -310,7 +315,7 @@ fn replay(prop: &str, j: &J) -> Result<Option<J>, String> {
         "C10" => c_scc::replay_c10(j),
         "C11" => c_ops::replay_c11(j),
         "C12" => c_ops::replay_c12(j),
-        "C13" => c_safe::replay_c13(j),
+        "C13" => if j.get("leak_op").is_some() { c_leak::replay_leak(j) } else { c_safe::replay_c13(j) },
         "C14" => c_gen::replay_c14(j),
         "C15" => c_gen::replay_c15(j),
         "C16" => c_conv::replay_c16(j),
